@@ -79,6 +79,7 @@ type task struct {
 	steps      uint64
 	prio       int64
 	policy     Policy
+	ranges     uint64
 	fn         func()
 }
 
